@@ -1,10 +1,74 @@
 import KawinV.Proto
-/-! driver verbs for C06 (stub: no verbs yet) -/
+import KawinV.Model.Solver
+import KawinV.Gen.C06Tableau
+/-! driver verbs for C06: the hand model of the iterators and the general Runge-Kutta step with the
+GENERATED tableau, on `Float`, for a small family of right-hand sides that exists identically in
+tools/corr/C06.py (`_rhs`; ids and operation order must match). -/
 namespace KawinV.Drv.C06
-open KawinV.Proto
+open KawinV.Proto KawinV.Solver
+
+def ratF (q : Rat) : Float := Float.ofInt q.num / Float.ofNat q.den
+
+def tabF (T : Tableau Rat) : Tableau Float := T.map ratF
+
+def powN (t : Float) : Nat → Float
+  | 0 => 1.0
+  | n+1 => powN t n * t
+
+/-- right-hand sides, vector state as a list -/
+def rhs (ode : Nat) (p q t : Float) (y : List Float) : List Float :=
+  match ode with
+  | 0 => y.map (fun v => p * v + q * t)
+  | 1 => y.map (fun v => p * v * (1.0 - v))
+  | 2 => match y with
+         | [a, b] => [-(p * b), p * a]
+         | _ => y
+  | 3 => y.map (fun v => p * v * Float.cos (q * t))
+  | 4 => y.map (fun v => (-2.0) * p * t * v)
+  | 5 => match y with
+         | [a, b] => [-(p * t * b), p * t * a]
+         | _ => y
+  | 6 => y.map (fun v => p * t * v * v)
+  | 7 => let k := q.toUInt64.toNat
+         y.map (fun v => (Float.ofNat k + 1.0) * powN t k + 0.0 * v)
+  | 8 => y.map (fun v => p * Float.cos (q * t) + 0.0 * v)
+  | 9 => y.map (fun v => -(p * v) + Float.sin t)
+  | _ => y
+
+def which (k : String) : Option (Tableau Rat) :=
+  if k == "E" then some KawinV.Gen.C06.euler else if k == "R" then some KawinV.Gen.C06.rk4 else none
+
+/-- rk.tableau E|R → c, number of rows of A, the rows, b (as doubles) -/
+def tableau : P String := do
+  let k ← tok
+  match which k with
+  | none => failure
+  | some T =>
+    let T := tabF T
+    pure s!"{flist T.c} {T.A.length} {" ".intercalate (T.A.map flist)} {flist T.b}"
+
+/-- rk.iter E|R ode p q t dt x(list) → xnew, callback times, callback states (concatenated), xold -/
+def iter : P String := do
+  let k ← tok; let ode ← nat; let p ← flt; let q ← flt; let t ← flt; let dt ← flt; let x ← flts
+  let f := rhs ode p q
+  let out ← (if k == "E" then pure (eulerIter listOps f dt t x)
+             else if k == "R" then pure (rk4Iter listOps f dt t x) else failure)
+  pure s!"{flist out.xnew} {flist (out.calls.map Prod.fst)} {flist (out.calls.flatMap Prod.snd)} {flist out.xold}"
+
+/-- rk.tabstep E|R ode p q t dt x → one general Runge-Kutta step with the generated tableau -/
+def tabstep : P String := do
+  let k ← tok; let ode ← nat; let p ← flt; let q ← flt; let t ← flt; let dt ← flt; let x ← flt
+  match which k with
+  | none => failure
+  | some T =>
+    let f : Float → Float → Float := fun s v => (rhs ode p q s [v]).getD 0 0.0
+    pure (fout (rkStep (tabF T) f t x dt))
 
 def handle (verb : String) : Option (P String) :=
   match verb with
+  | "rk.tableau" => some tableau
+  | "rk.iter" => some iter
+  | "rk.tabstep" => some tabstep
   | _ => none
 
 end KawinV.Drv.C06
